@@ -105,6 +105,32 @@ class EnumMember:
         return f"{self.cls.name}.{self._name}"
 
 
+class SymEnum:
+    """A symbolic member of an enum class: idx is a z3 Int constrained to
+    [0, n).  Any use that needs the concrete member forks (Engine.concretize)."""
+
+    def __init__(self, cls, idx):
+        self.cls = cls
+        self.idx = idx
+
+    def __repr__(self):
+        return f"SymEnum({self.cls.name},{self.idx})"
+
+    def __hash__(self):
+        return hash(("symenum", self.cls.name, self.idx.hash()))
+
+
+class SymOpt:
+    """value-or-None with a symbolic None-flag (`x is None` forks)."""
+
+    def __init__(self, is_none, value):
+        self.is_none = is_none  # z3 Bool
+        self.value = value
+
+    def __repr__(self):
+        return f"SymOpt({self.is_none},{self.value!r})"
+
+
 class PyExc:
     """An exception raised by interpreted code: cls is a python exception
     class or a ClassInfo deriving from one."""
